@@ -125,6 +125,9 @@ def run(repo, rep, tier):
     guards.check_functions(repo, rep, fam)
     effects.check_functions(repo, rep, fam)
     stateless_scan(repo, rep, fam)
+    # Minor's elliptic branch places the body through the shared Kepler solver: its anomaly reduction and sign bookkeeping (rule of C11)
+    from .c11 import kepler_rules
+    kepler_rules(repo, rep)
     # premise of the evaluator: Angle / Epoch operators mean what their names say and leave their operands alone
     from ..premises import operator_semantics
     operator_semantics(repo, rep)
